@@ -14,7 +14,7 @@
    and holds a strict prefix of the bytes, possibly nothing) and OComplete. *)
 From Coq Require Import String.
 From Coq Require Import ZArith List Bool Arith.
-From TV Require Import gen.SaveIR.
+From TV Require Import gen.SaveIR gen.TrainIR.
 Import ListNotations.
 Open Scope list_scope.
 Open Scope Z_scope.
@@ -507,3 +507,78 @@ Definition window_case_ok (c : Z * list Z * list (list Z)) : bool :=
      end) 1%nat bufs.
 Definition zlist_eqb (a b : list Z) : bool :=
   (fix eqz (a b : list Z) := match a, b with [] , [] => true | x :: r, y :: t => Z.eqb x y && eqz r t | _, _ => false end) a b.
+
+(* ---- denotations of gen/TrainIR.v (regenerated from trainer.py) ---------------------------------
+   The hand-written window_append / serve_tensor / train_tensor above are what the theorems speak about;
+   proofs/SnapshotTie.v shows they ARE the denotations of the regenerated statements. *)
+Definition cmp_eval (c : cmp) (a b : Z) : bool :=
+  match c with CGt => a >? b | CGe => a >=? b | CLt => a <? b | CLe => a <=? b | CEq => a =? b | CNe => negb (a =? b) end.
+(* Python list slicing l[lo:hi] (step 1) *)
+Definition norm_idx (n : Z) (i : option Z) (dflt : Z) : Z :=
+  match i with None => dflt | Some v => Z.max 0 (Z.min n (if v <? 0 then n + v else v)) end.
+Definition py_slice {A} (lo hi : option Z) (l : list A) : list A :=
+  let n := Z.of_nat (List.length l) in
+  let a := norm_idx n lo 0 in let b := norm_idx n hi n in
+  firstn (Z.to_nat (b - a)) (skipn (Z.to_nat a) l).
+Fixpoint wexec {A} (p : list wstmt) (cap : Z) (buf : list A) (b : A) : list A :=
+  match p with
+  | [] => buf
+  | WAppend :: r => wexec r cap (buf ++ [b]) b
+  | WIfSlice c lo hi :: r =>
+    wexec r cap (if cmp_eval c (Z.of_nat (List.length buf)) cap then py_slice lo hi buf else buf) b
+  end.
+
+Section ModeIR.
+  Context {T : Type}.
+  Variable cast : dtype -> T -> T.
+  Definition dsel_of (serve train : dtype) (d : dsel) : dtype := match d with DServe => serve | DTrain => train end.
+  (* the device argument never changes the device (the model lives on config.device), so MTo only converts *)
+  Definition mexec_stmt (on_cpu : bool) (serve train : dtype) (dflt : dtype * T) (st : mstmt) (t : bool * @pstate T)
+    : bool * @pstate T :=
+    let '(sd, p) := t in
+    match st with
+    | MCapture =>
+      (sd, if sd then (if on_cpu then mkP (cells p) (live p) (Some (live p))
+                       else mkP (cells p ++ [cell p (live p) dflt]) (live p) (Some (List.length (cells p))))
+           else mkP (cells p) (live p) None)                  (* the dict is rebuilt: no entry for this tensor *)
+    | MTo d _ => (sd, to_dtype cast (dsel_of serve train d) p dflt)
+    | MLoad =>
+      (sd, match master p with
+           | Some m => mkP (upd (live p) (copy_into cast (cell p (live p) dflt) (cell p m dflt)) (cells p)) (live p) (master p)
+           | None => p
+           end)
+    end.
+  Definition mexec (on_cpu : bool) (serve train : dtype) (dflt : dtype * T) (prog : list mstmt) (t : bool * @pstate T) :=
+    fold_left (fun acc st => mexec_stmt on_cpu serve train dflt st acc) prog t.
+End ModeIR.
+
+(* which precision the model is in when each hook runs, over one pass through run_async -> train_loop (one
+   iteration of the while loop) -> train_step *)
+Inductive pmode := Training | Serving.
+Fixpoint flatten_events (fuel : nat) (evs : list ev) : list ev :=
+  match fuel with
+  | O => evs
+  | S f => flat_map (fun e => match e with
+                              | ETrainLoop => flatten_events f (loop_pre ++ loop_body ++ loop_post)
+                              | ETrainStep => flatten_events f train_step_events
+                              | _ => [e]
+                              end) evs
+  end.
+Fixpoint observe (evs : list ev) (m : pmode) : list (string * pmode) :=
+  match evs with
+  | [] => []
+  | EServeMode :: r => observe r Serving
+  | ETrainMode :: r => observe r Training
+  | EHook h :: r => (h, m) :: observe r m
+  | _ :: r => observe r m
+  end.
+(* a freshly built / freshly loaded model is in the training dtype *)
+Definition hook_observations : list (string * pmode) := observe (flatten_events 3 run_async_events) Training.
+Fixpoint index_of_ev (e : ev) (l : list ev) (i : nat) : option nat :=
+  match l with
+  | [] => None
+  | x :: r => match x, e with
+              | EBuildOpt, EBuildOpt | ELoadOrInit, ELoadOrInit | EBuildModel, EBuildModel => Some i
+              | _, _ => index_of_ev e r (S i)
+              end
+  end.
